@@ -95,7 +95,9 @@ def verify_rejects_others(address: Any, message: Any, sig: Any, *, expect: Bool)
 from pyvc import replay as _replay
 from contracts.c13 import _secret, _bj
 
-_TEXTS = ['', 'a', 'hello', 'Zażółć gęślą jaźń', '日本語', 'x' * 252, 'y' * 253, 'z' * 300, '\n', 'A' * 1000, '\U0001F600 ok']
+_TEXTS = ['', 'a', 'hello', 'Zażółć gęślą jaźń', '日本語', 'x' * 252, 'y' * 253, 'z' * 300, '\n', 'A' * 1000, '\U0001F600 ok',
+          # text that is not in a Unicode normal form: the message is its UTF-8 bytes as given, not a normalised twin
+          'e\u0301', '\u212b', 'A\u030a ngstrom', '\ufb01', '\u1e9b\u0323']
 
 
 def _build_c14(inputs, chain):
